@@ -2,7 +2,11 @@ package main
 
 import (
 	"fmt"
+	"github.com/goghcrow/yae"
 	"github.com/goghcrow/yae/compiler"
+	"github.com/goghcrow/yae/fun"
+	"github.com/goghcrow/yae/parser/ast"
+	"github.com/goghcrow/yae/parser/oper"
 	"os"
 	"os/exec"
 	"strings"
@@ -111,6 +115,9 @@ func specialCases() []Case {
 	// (g) a dynamic call site evaluated several times with different function values in the
 	// environment: every back end must call the CURRENT value of the callee expression
 	cs = append(cs, dynamicCalleeCase())
+
+	// (i) sugar against the explicit call THROUGH THE FACADE, under several engine configurations
+	cs = append(cs, facadeSugarCases()...)
 
 	// (h) re-entrancy: a host function evaluates the SAME compiled expression again while it is
 	// running (no goroutine involved); every back end must behave as if each evaluation had its
@@ -313,4 +320,89 @@ func reentrantCase() Case {
 		c.Oracle, c.OracleID = "a compiled expression is not re-entrant: "+strings.Join(bad, " | "), "backend-divergence"
 	}
 	return c
+}
+
+// facadeSugarCases: pairs (sugared text, explicit call) evaluated through yae.Expr.Compile under
+// engine configurations that differ in what is registered — the default engine, built-ins switched
+// off with functions only, with functions and operators, with an extra translator — must have the
+// same outcome (value, or both fail).  "x op y, op x, c ? a : b, o.f(args) and (e) have the same
+// type and value (or fail alike) as the explicit calls" whatever the engine was given.
+func facadeSugarCases() []Case {
+	type cfg struct {
+		name string
+		mk   func() *yae.Expr
+	}
+	funs := func() []*val.Val { return fun.BuiltIn() }
+	cfgs := []cfg{
+		{"default", func() *yae.Expr { return yae.NewExpr() }},
+		{"default+closure", func() *yae.Expr { return yae.NewExpr().UseClosureCompiler() }},
+		{"functions-only", func() *yae.Expr { return yae.NewExpr().UseBuiltIn(false).RegisterFun(funs()...) }},
+		{"functions+operators", func() *yae.Expr {
+			return yae.NewExpr().UseBuiltIn(false).RegisterOperator(oper.BuiltIn()...).RegisterFun(funs()...)
+		}},
+		{"operators-first", func() *yae.Expr {
+			return yae.NewExpr().UseBuiltIn(false).RegisterFun(funs()...).RegisterOperator(oper.BuiltIn()...)
+		}},
+		{"extra-translator", func() *yae.Expr {
+			return yae.NewExpr().RegisterTranslator(func(e ast.Expr) ast.Expr { return e })
+		}},
+	}
+	type pair struct {
+		sugar, call string
+		needsOps    bool
+	}
+	pairs := []pair{
+		{`(n)`, `n`, false}, {`((n))`, `n`, false}, {`max((n), (7))`, `max(n, 7)`, false}, {`(len)(s)`, `len(s)`, false},
+		{`b ? s : "no"`, `if(b, s, "no")`, false}, {`b ? (b ? 1 : 2) : 3`, `if(b, if(b, 1, 2), 3)`, false},
+		{`n.max(7)`, `max(n, 7)`, false}, {`s.len()`, `len(s)`, false}, {`xs.len().max(1)`, `max(len(xs), 1)`, false},
+		{`[n, (n)].len()`, `len([n, n])`, false}, {`{a: (n)}.a`, `{a: n}.a`, false}, {`xs[(0)]`, `xs[0]`, false},
+		// (a symbolic operator cannot be written as a callee in source text; the operator forms are
+		// compared with their desugaring at the tree level by the desugar stream)
+		{`-n`, `-(n)`, true}, {`!b`, `!(b)`, true}, {`(n + 1)`, `n + 1`, true}, {`(n > 1) && (b)`, `n > 1 && b`, true},
+		{`(b ? n : 0) + 1`, `if(b, n, 0) + 1`, true}, {`(n + 1).max(2)`, `max(n + 1, 2)`, true},
+	}
+	env := map[string]interface{}{"n": 3.0, "s": "a", "b": true, "xs": []float64{1, 2}}
+	var cs []Case
+	for _, cf := range cfgs {
+		for _, pr := range pairs {
+			if pr.needsOps && cf.name == "functions-only" {
+				continue
+			}
+			human := fmt.Sprintf("facade[%s] %s  vs  %s", cf.name, pr.sugar, pr.call)
+			c := Case{Human: human, Tags: []string{"special:facade-sugar", "cfg:" + cf.name}, Nontriv: true, Want: "same"}
+			if guardBegin(human) {
+				cs = append(cs, crashCase(human))
+				continue
+			}
+			func() {
+				defer guardEnd()
+				run := func(src string) (out string) {
+					defer func() {
+						if r := recover(); r != nil {
+							out = "panic: " + fmt.Sprint(r)
+						}
+					}()
+					cl, err := cf.mk().Compile(src, env)
+					if err != nil {
+						return "compile error"
+					}
+					v, err := cl(env)
+					if err != nil {
+						return "run error"
+					}
+					return v.String() + " : " + v.Type.String()
+				}
+				a, b := run(pr.sugar), run(pr.call)
+				if a != b {
+					c.Want = "differs"
+					c.Oracle, c.OracleID = fmt.Sprintf("%s gives %s, %s gives %s", pr.sugar, a, pr.call, b), "sugar-differs-from-call"
+				} else if strings.HasSuffix(a, "error") || strings.HasPrefix(a, "panic") {
+					// both fail: fine for the property, but on the unchanged tree every pair evaluates
+					c.Tags = append(c.Tags, "facade-sugar:both-fail")
+				}
+			}()
+			cs = append(cs, c)
+		}
+	}
+	return cs
 }
